@@ -133,6 +133,38 @@ var malformed = []string{
 	"stress 1 4 100 1", "stress 1 1 100 1 a", "stress 1 9 100 1 a", "stress 1 4 0 1 a", "stress 1 4 5001 1 a",
 	"stress 1 4 100 0 a", "stress 1 4 100 5 b", "stress 1 4 100 1 c", "stress x 4 100 1 a", "stress 1234567890 4 100 1 a",
 	"stress 1 4 1e2 1 a", "stress -1 4 100 1 a",
+	"writers 1 N0o 0", "writers 1 O0o,d0 0", "sched 1 O0o 0", "sched 1 c 0", "writers 1 O1o 0", "writers 1 O0x 0", "writers 1 O0o,G 0", "writers 1 c,O0o 0", "writers 1 O0o,c,c 0",
+}
+
+// client lines: configs that open log writers (some OpenWriter calls fail) and close their logs
+var curatedWriters = []struct {
+	nk    int
+	progs string
+}{
+	{1, "O0o,c;O0o,c"},
+	{1, "O0f,c;O0o,c"},
+	{1, "O0f,c;O0o,c;O0o,c"},
+	{2, "O0o,O1o,c;O1o,O0o,c"},
+	{2, "O0o,O1f,c;O0o,O1o,c"},
+	{2, "O0o,O0o,O1o,c;O1f,O0o,c"},
+	{1, "c;O0o,c"},
+}
+
+func randWriters(rng *core.Rand, nk int) string {
+	var ops []string
+	n := 1 + rng.Intn(4)
+	for i := 0; i < n; i++ {
+		k := rng.Intn(nk)
+		if rng.Chance(1, 4) {
+			ops = append(ops, "O"+strconv.Itoa(k)+"f")
+		} else {
+			ops = append(ops, "O"+strconv.Itoa(k)+"o")
+		}
+	}
+	if rng.Chance(9, 10) {
+		ops = append(ops, "c")
+	}
+	return strings.Join(ops, ",")
 }
 
 func (prop) Generate(rng *core.Rand, tier string, emit func(string)) {
@@ -168,6 +200,31 @@ func (prop) Generate(rng *core.Rand, tier string, emit func(string)) {
 		for i := 0; i < sample3; i++ {
 			emit(pre + randSched(rng, nt, 6+rng.Intn(14)))
 		}
+	}
+	// the writers-pool client (real Logging.openWriter / closeLogs)
+	for _, cs := range curatedWriters {
+		nt := strings.Count(cs.progs, ";") + 1
+		pre := "writers " + strconv.Itoa(cs.nk) + " " + cs.progs + " "
+		emit(pre + "-")
+		if nt == 2 {
+			enumerate(nt, enumLen2-1, func(s string) { emit(pre + s) })
+		}
+		for i := 0; i < sample3; i++ {
+			emit(pre + randSched(rng, nt, 4+rng.Intn(16)))
+		}
+	}
+	for i := 0; i < nRandom/5; i++ {
+		nk := 1 + rng.Intn(2)
+		nt := 2 + rng.Intn(2)
+		var ps []string
+		for t := 0; t < nt; t++ {
+			ps = append(ps, randWriters(rng, nk))
+		}
+		sc := "-"
+		if l := rng.Intn(30); l > 0 {
+			sc = randSched(rng, nt, l)
+		}
+		emit("writers " + strconv.Itoa(nk) + " " + strings.Join(ps, ";") + " " + sc)
 	}
 	for i := 0; i < nRandom; i++ {
 		nk := 1 + rng.Intn(2)
